@@ -21,9 +21,9 @@ META = {
         'the right-hand side subtracts the basis times inputans masked by the complement of ia; C13.WEIGHTS - normal matrix and '
         'right-hand side are both formed with invvar itself (not a 0/1 mask); C13.YFIT-ALL - the basis and the fitted model are evaluated at every abscissa, masked ones included, and the normal matrix is solved as formed; C13.GRID - TraceSet.xy without xpos builds nx = '
         'int(xmax - xmin + 1) positions in unit steps offset by xmin; C13.BASIS-FRESH - func_fit scales the basis array in place, so '
-        'every basis function returns a freshly allocated array (no memo decorator, no module-level cache). C13.FIT-ONCE - the fit/reject loop of TraceSet.__init__ holds on entry for maxiter = 0 (loop test folded on its initial values); C13.FLOAT-BASIS - the Legendre basis array is floating for every abscissa dtype. C13.FLOAT-OUT - the coefficient, fit and evaluation arrays of a TraceSet are not allocated in the dtype of the pixel positions (func_fit itself asserts that its arrays share the dtype of x, and is left alone); C13.INMASK-WEIGHT - the weights TraceSet.__init__ hands to func_fit are, on every reaching definition and every pass of the fit loop, masked by the invvar and the inmask of the caller (must-analysis; the mask returned by djs_reject carries only what its inmask argument carries); C13.BASIS-EACH - TraceSet.xy recomputes the normalised abscissa and the basis for every trace unconditionally; NOT decided: that the '
+        'every basis function returns a freshly allocated array (no memo decorator, no module-level cache). C13.FIT-ONCE - the fit/reject loop of TraceSet.__init__ holds on entry for maxiter = 0 (loop test folded on its initial values); C13.FLOAT-BASIS - the Legendre basis array is floating for every abscissa dtype. C13.FLOAT-OUT - the coefficient, fit and evaluation arrays of a TraceSet are not allocated in the dtype of the pixel positions (func_fit itself asserts that its arrays share the dtype of x, and is left alone); C13.JUMP-COND - inside xnorm the jump correction is applied under the jump flag alone (no further condition on the positions); C13.INMASK-WEIGHT - the weights TraceSet.__init__ hands to func_fit are, on every reaching definition and every pass of the fit loop, masked by the invvar and the inmask of the caller (must-analysis; the mask returned by djs_reject carries only what its inmask argument carries); C13.BASIS-EACH - TraceSet.xy recomputes the normalised abscissa and the basis for every trace unconditionally; NOT decided: that the '
         'bases equal the textbook polynomials (delegated to scipy; numerical), least-squares optimality, exact recovery.'),
-    'floors': {'C13.INMASK-WEIGHT': 1, 'C13.BASIS-EACH': 1, 'C13.FLOAT-OUT': 2, 'C13.FIT-ONCE': 1, 'C13.FLOAT-BASIS': 1, 'C13.REGISTRY': 3, 'C13.XNORM': 4, 'C13.FIXED-LAST': 3, 'C13.WEIGHTS': 3, 'C13.GRID': 2, 'C13.BASIS-FRESH': 4, 'C13.YFIT-ALL': 3},
+    'floors': {'C13.JUMP-COND': 1, 'C13.INMASK-WEIGHT': 1, 'C13.BASIS-EACH': 1, 'C13.FLOAT-OUT': 2, 'C13.FIT-ONCE': 1, 'C13.FLOAT-BASIS': 1, 'C13.REGISTRY': 3, 'C13.XNORM': 4, 'C13.FIXED-LAST': 3, 'C13.WEIGHTS': 3, 'C13.GRID': 2, 'C13.BASIS-FRESH': 4, 'C13.YFIT-ALL': 3},
 }
 
 TRACE = 'pydl/pydlutils/trace.py'
@@ -520,7 +520,33 @@ def check_inmask_weight(ctx, repo):
     ctx.need(n >= 1, 'TraceSet.__init__: call of func_fit not found')
 
 
+def check_jump_cond(ctx, repo):
+    """C13.JUMP-COND: inside xnorm the jump correction depends on the jump flag alone.  The correction is piecewise in x (zero below
+    xjumplo, a ramp up to xjumphi, the full value beyond), so it has to be applied to every row of positions when the flag is set: a
+    further condition on the positions (`and xinput.max() > self.xjumphi`) drops the ramp part for rows that end inside the jump, and fit
+    and evaluation then disagree on such rows."""
+    from ..astutil import path_conditions, clone
+    from ..normal import canon_test
+    f = repo.func(TRACE, 'TraceSet.xnorm')
+    ctx.cover(f)
+    flag = f.params[2] if len(f.params) > 2 else 'jump'
+    uses = [st for st in walk_local(f.node) if isinstance(st, (ast.Assign, ast.AugAssign)) and any(
+        isinstance(x, ast.Attribute) and x.attr == 'xjumpval' for x in ast.walk(st.value))]
+    ctx.need(uses, 'TraceSet.xnorm: the jump correction (xjumpval) not found')
+    for st in uses:
+        conj = []
+        for t, pol in path_conditions(st):
+            e = canon_test(t if pol else ast.UnaryOp(op=ast.Not(), operand=clone(t)))
+            conj += [src(x) for x in (e.values if isinstance(e, ast.BoolOp) and isinstance(e.op, ast.And) else [e])]
+        extra = [c for c in conj if c != flag]
+        ctx.check('C13.JUMP-COND', flag in conj and not extra, f, st, 'xnorm applies the jump correction exactly when `%s` is set' % flag,
+                  msg='xnorm applies the jump correction only under %s: rows of positions for which the extra condition fails lose the (partial) jump, so '
+                      'a trace evaluated on part of a row differs from the same trace evaluated on the whole row' % (conj or ['no condition']),
+                  construct='jump correction under %s' % conj)
+
+
 def run(ctx):
+    check_jump_cond(ctx, ctx.repo)
     check_inmask_weight(ctx, ctx.repo)
     check_basis_each(ctx, ctx.repo)
     from .floatlib import check_float_alloc
